@@ -173,10 +173,9 @@ def run(L, tier, only=None):
             continue
         positions = range(arity)
         for pos in positions:
-            if quick and arity == 3 and pos == 0:
+            if False:
                 continue
             L.lemma("C13 %s arg%d" % (word, pos), relational_lemma(loader, word, arity, pos))
     if not only or "with-tags" in only:
         L.lemma("C13 with_tags", with_tags_lemma())
     L.ex.path_budget = None
-    L.ex.overrides.clear()
